@@ -374,7 +374,7 @@ func (p *Parser) ShortExp(t *token.Token) (ast.ExpNode, *token.Token) {
 	case token.STRING:
 		s, err := ast.NewString(t)
 		if err != nil {
-			panic(err)
+			invalidTokenError(t, err)
 		}
 		exp, t = s, p.Scan()
 	case token.LONGSTRING:
@@ -542,7 +542,7 @@ func (p *Parser) Args(t *token.Token) ([]ast.ExpNode, *token.Token) {
 	case token.STRING:
 		arg, err := ast.NewString(t)
 		if err != nil {
-			panic(err)
+			invalidTokenError(t, err)
 		}
 		return []ast.ExpNode{arg}, p.Scan()
 	case token.LONGSTRING:
@@ -647,4 +647,14 @@ func expectType(t *token.Token, tp token.Type, expected string) {
 
 func tokenError(t *token.Token, expected string) {
 	panic(Error{Got: t, Expected: expected})
+}
+
+// invalidTokenError signals that the token t, although well formed, was found
+// to be invalid for the reason given by err (e.g. an escape sequence out of
+// range in a string).
+func invalidTokenError(t *token.Token, err error) {
+	panic(Error{
+		Got:      &token.Token{Type: token.INVALID, Lit: t.Lit, Pos: t.Pos},
+		Expected: err.Error(),
+	})
 }
